@@ -419,6 +419,10 @@ pub fn run(ctx: &Ctx) -> i32 {
             acc.sample(json!({"graph": graph_json(&case.g), "groups": {"feynman": [0, gr.nf], "lambda": gr.p, "gaussian_from": gr.tail, "dimension": gr.dim}}));
         }
     });
+    if is14 {
+        acc.merge(disconnected_pass(ctx));
+        acc.violations.sort_by(|a, b| (a.key.as_str(), a.what.as_str()).cmp(&(b.key.as_str(), b.what.as_str())));
+    }
     let mut extra = serde_json::Map::new();
     if !is14 {
         let dd = dd_pass(ctx);
@@ -461,6 +465,68 @@ pub fn run(ctx: &Ctx) -> i32 {
         }
     };
     finish(ctx, &acc, fin)
+}
+
+/// accepted graphs that are NOT connected (and trees, self-loop products, ...): the coordinate count must still be exactly
+/// get_dimension() = 2E-1+DL+(DL mod 2) with L summed over components. Identity-like signature, differential oracle.
+fn disconnected_pass(ctx: &Ctx) -> Acc {
+    use crate::scope::*;
+    let labels = [0u8, 1, 2, 3];
+    let mut shapes: Vec<Vec<(u8, u8)>> = vec![];
+    for ne in 2..=3 {
+        for s in unordered_pair_shapes(&labels, ne) {
+            let g = mk(&s, &vec![true; ne], &vec![4.0; ne], &[], 3);
+            if g.components(g.full()).len() >= 2 && g.loop_number(g.full()) >= 1 {
+                shapes.push(s);
+            }
+        }
+    }
+    shapes.push(vec![(0, 1), (0, 1), (2, 3), (2, 3)]);
+    shapes.push(vec![(0, 0), (1, 1), (2, 2), (3, 3)]);
+    let dims: Vec<usize> = ctx.tier.pick(vec![3, 4], vec![1, 2, 3, 4, 5, 6]);
+    par_for(shapes.len(), |i, acc| {
+        let s = &shapes[i];
+        let ne = s.len();
+        for &d in &dims {
+            let g = mk(s, &vec![true; ne], &vec![d as f64; ne], &[], d);
+            let sampler = match build(&g, &crate::history::ident_sig(&g)) {
+                BuildOutcome::Ok(s) => s,
+                _ => continue,
+            };
+            acc.inc("disconnected_configurations");
+            let want = g.hypercube_dim();
+            let key = |c: &str| format!("C14/{c}/{:016x}", fnv(&graph_json(&g).to_string()));
+            let dim = match sampler.get_dimension() {
+                Ok(d) => d,
+                Err(p) => {
+                    acc.violate(key("get_dimension-panics"), "reads exactly get_dimension() coordinates", format!("get_dimension panicked: {p}"), json!({"engine": "table", "graph": graph_json(&g), "extra": {}}));
+                    continue;
+                }
+            };
+            let ed: EdgeData<f64> = (0..ne).map(|e| (Some(1.0 + e as f64), vec![0.25; d])).collect();
+            let x: Vec<f64> = (0..dim).map(|k| if k % 3 == 0 { 0.3 } else { 0.5 }).collect();
+            let out = sampler.sample(&x, &ed, &Settings::META);
+            acc.inc("executions");
+            if let Outcome::Panic(p) = &out {
+                acc.violate(key("disconnected exact-length slice panics"), "reads exactly get_dimension() coordinates", format!("disconnected graph (get_dimension() = {dim}, 2E-1+DL+(DL mod 2) = {want}): sampling a slice of exactly get_dimension() coordinates panicked: {}", p.chars().take(120).collect::<String>()), json!({"engine": "table", "graph": graph_json(&g), "extra": {}}));
+                continue;
+            }
+            for poison in [f64::NAN, 0.0] {
+                let mut xx = x.clone();
+                xx.extend([poison; 4]);
+                let o2 = sampler.sample(&xx, &ed, &Settings::META);
+                acc.inc("poison_runs");
+                if outcome_bits(&o2) != outcome_bits(&out) {
+                    acc.violate(key("disconnected: coordinates beyond get_dimension are ignored"), "ignores any coordinates beyond", format!("disconnected graph: appending {poison:e} coordinates beyond get_dimension() = {dim} changed the result (2E-1+DL+(DL mod 2) = {want})"), json!({"engine": "table", "graph": graph_json(&g), "extra": {}}));
+                    break;
+                }
+            }
+            // every coordinate below get_dimension matters: a slice one short must not give the same result silently
+            if dim != want {
+                acc.violate(key("disconnected: get_dimension"), "reads exactly get_dimension() coordinates", format!("get_dimension() = {dim} but the sampler needs 2E-1+DL+(DL mod 2) = {want} coordinates"), json!({"engine": "table", "graph": graph_json(&g), "extra": {}}));
+            }
+        }
+    })
 }
 
 // ---------------------------------------------------------------------------------------------------
